@@ -663,7 +663,12 @@ func (c *Context) Cbrt(d, x *Decimal) (Condition, error) {
 	}
 
 	z0.Set(x)
-	res := c.round(d, &z)
+	// z is an approximation whose error can have either sign, so it must be
+	// rounded to nearest: a directed rounding mode would turn a z just above
+	// an exact root (2.0000000001 for 8) into the next number up (2.01).
+	rc := *c
+	rc.Rounding = RoundHalfEven
+	res := rc.round(d, &z)
 	res, err := c.goError(res)
 	d.Negative = neg
 
